@@ -225,3 +225,77 @@ class NodeTextRoundTrip(SeqCheck):
                     z3.Implies(z3.Select(dk1, key), child_text(s2) == child_text(s1))))
                 outs.append((s2, ('ret', r2)))
         return outs
+
+
+class _UpdateFromNode(FnCheck):
+    prop = 'C05'
+    list_variant = False
+
+    def setup(self, b):
+        self.lvn = b.str('local_var_name')
+        self.o = b.obj('self', cls=(XS, self.cls_name), _local_var_name=self.lvn)
+        self.inst, self.node = b.obj('instance'), b.obj('node')
+        b.distinct(self.o, self.inst, self.node)
+        b.st.ghost['sets'] = ()
+        return self.o, [self.inst, self.node], {}
+
+    def callees(self, ex):
+        ids = ex.ctx.builtin_class_ids
+
+        def get(ex_, st, args, kwargs):
+            if self.list_variant:
+                # the list readers return a (possibly empty) list or None
+                lst = st.alloc('list')
+                st.set_list_seq(lst, fresh(SeqVal, 'read_list'))
+                self_none = fresh(BoolS, 'reader_returns_none')
+                st.ghost['c:none'] = self_none
+                v = vany(z3.If(self_none, Val.none, Val.ref(lst.e)), maybe_none=True)
+            else:
+                v = vany(fresh(Val, 'read_value'), maybe_none=True)
+            st.ghost['c:read'] = v.e
+            st.ghost['c:read_args'] = (st.box(args[0]), st.box(args[1]))
+            return v
+
+        def setattr_(ex_, st, args, kwargs):
+            st.ghost['sets'] += ((st.box(args[0]), st.box(args[1]), st.box(args[2])),)
+            return NONE
+        return {'*.get_py_value_from_node': Pure(get, name='get_py_value_from_node (C05 round-trip contracts)'),
+                'setattr': Pure(setattr_, name='setattr(instance, name, value)')}
+
+    def post(self, ex, st0, st, outcome, b):
+        if outcome[0] == 'exc':
+            ex.oblige(st, 'never_raises_itself', z3.BoolVal(False), info={'exc': repr(outcome[1])})
+            return
+        sets = st.ghost['sets']
+        read = st.ghost.get('c:read')
+        ex.oblige(st, 'value_is_read_from_the_given_node', z3.And(
+            st.ghost['c:read_args'][0] == Val.ref(self.inst.e), st.ghost['c:read_args'][1] == Val.ref(self.node.e))
+            if read is not None else z3.BoolVal(False))
+        if read is None:
+            return
+        must_write = z3.Not(Val.is_none(read)) if self.list_variant else z3.BoolVal(True)
+        ex.oblige(st, 'member_takes_the_value_read_from_xml', z3.Implies(must_write, z3.And(
+            z3.BoolVal(len(sets) == 1), sets[0][0] == Val.ref(self.inst.e), sets[0][1] == Val.str(self.lvn.e), sets[0][2] == read)
+            if len(sets) == 1 else z3.BoolVal(False)))
+        ex.oblige(st, 'nothing_else_is_written', z3.BoolVal(len(sets) <= 1))
+
+
+@register
+class UpdateFromNodeScalar(_UpdateFromNode):
+    id = 'C05.update_from_node'
+    cls_name = '_XmlStructureBaseProperty'
+    target = f'{XS}:_XmlStructureBaseProperty.update_from_node'
+    doc = ('update_from_node (all scalar / single-element properties): the member always takes exactly the value read '
+           'from the given node (also None / implied-value cases), so the result of reading depends on the XML only and '
+           'never on what the object held before')
+
+
+@register
+class UpdateFromNodeList(_UpdateFromNode):
+    id = 'C05.update_from_node_list'
+    cls_name = '_ElementListProperty'
+    list_variant = True
+    target = f'{XS}:_ElementListProperty.update_from_node'
+    doc = ('update_from_node of list-valued element properties: whenever the reader returns a list - including the empty '
+           'list for XML without such elements - the member is replaced by it, so entries of an earlier content never '
+           'survive a re-read')
